@@ -7,6 +7,7 @@
 import Nq.Lemmas.SmtpFraming
 import Nq.Lemmas.SmtpSim
 import Nq.Lemmas.HopCount
+import Nq.Lemmas.SmtpIO
 
 namespace Nq.Props.C05
 open Nq Nq.SmtpIn Nq.SmtpRef Nq.SmtpOut Nq.Wire Nq.Lemmas
@@ -85,16 +86,16 @@ theorem C05_hops_accepted (inp body rest : Bytes) (h : dblast inp = .accepted bo
   · rw [C05_hops, e]; simp
 
 /-- once the header is over (first empty line) nothing is counted any more, whatever follows -/
-theorem C05_hops_body (hdr body : Bytes) (h : LF ∉ hdr ∨ True) :
+theorem C05_hops_body (hdr body : Bytes) :
     Nq.HopCount.hopSpec (hdr ++ [LF, CR, LF] ++ body) = Nq.HopCount.hopSpec (hdr ++ [LF, CR, LF]) := by
   rw [← C05_hops, ← C05_hops]
   have e : hdr ++ [LF, CR, LF] ++ body = (hdr ++ [LF, CR, LF]) ++ body := rfl
   rw [e]
-  show Nq.Lemmas.HopCount.hrun {} _ |>.hops = (Nq.Lemmas.HopCount.hrun {} _).hops
+  show (Nq.Lemmas.HopCount.hrun {} ((hdr ++ [LF, CR, LF]) ++ body)).hops = (Nq.Lemmas.HopCount.hrun {} (hdr ++ [LF, CR, LF])).hops
   rw [Nq.Lemmas.HopCount.hrun_append]
   have hout : (Nq.Lemmas.HopCount.hrun {} (hdr ++ [LF, CR, LF])).inHeader = false := by
-    rw [show hdr ++ [LF, CR, LF] = (hdr ++ [LF]) ++ [CR, LF] by simp, Nq.Lemmas.HopCount.hrun_append]
-    exact Nq.Lemmas.HopCount.empty_line_ends _
+    rw [show hdr ++ [LF, CR, LF] = (hdr ++ [LF]) ++ [CR, LF] by simp]
+    exact Nq.Lemmas.HopCount.empty_line_ends _ _
   rw [Nq.Lemmas.HopCount.hrun_out _ _ hout]
 
 /-! ### Non-vacuity (13 = CR, 10 = LF, 46 = '.', 120 = 'x') -/
@@ -108,8 +109,77 @@ example : completeLines [46, 97, 10] ∧ rfcEncode [46, 97, 10] = [46, 46, 97, 1
   · right; decide
   · decide
 
-/-- "Received:" CR LF "DELIVERED-" CR LF "receive:" CR LF CR LF "Received:" CR LF: two hops (near miss and body line not counted) -/
+-- "Received:" CR LF "DELIVERED-" CR LF "receive:" CR LF CR LF "Received:" CR LF: two hops (near miss and body line not counted)
+set_option maxRecDepth 100000 in
 example : hopsOf [82, 101, 99, 101, 105, 118, 101, 100, 58, 13, 10, 68, 69, 76, 73, 86, 69, 82, 69, 68, 45, 13, 10,
     114, 101, 99, 101, 105, 118, 101, 58, 13, 10, 13, 10, 82, 101, 99, 101, 105, 118, 101, 100, 58, 13, 10] = 2 := by decide
+
+/-! ### Chunking independence: `blast()` as it runs over substdio (`Nq.SmtpIO.sblast`)
+
+`sblast s` is the `for (;;) { substdio_get(&ssin,&ch,1); … }` loop of qmail-smtpd.c over a buffered
+descriptor `s : Substdio.ISt` — any buffer size, any bytes already buffered (`s.data`, e.g. what
+`commands()` left after the DATA line), any bytes still to come (`s.src`), and a read script `s.rs`
+saying how many bytes each `read()` returns (short reads, the 1024-byte refill, end of file only at the
+real end; a `0` entry is a failing `read()`).  `IWF` is substdio's own invariant `n + p = size`. -/
+section chunking
+open Nq.Substdio Nq.SmtpIO Nq.Lemmas.SmtpIO
+
+/-- **C05_chunking.**  However the network stream is split into reads, `blast()` computes `dblast` of the
+concatenated stream: same verdict, same stored bytes, and the bytes left in `ssin` (buffered + unread)
+are exactly the pure decoder's `rest` — so by `C05_spec`/`C05_framing` the result is the RFC 5321 decoding
+of the stream and does not depend on TCP segmentation.  (`.incomplete` ↔ `saferead` reached end of file:
+`die_read()`.) -/
+theorem C05_chunking (s : ISt) (h : IWF s) (hne : 0 ∉ s.rs) :
+    (sblast s).view = dblast (s.data ++ s.src) := by
+  rcases sblast_spec s h with ⟨_, e⟩ | e
+  · exact absurd e hne
+  · exact view_of_agree _ _ _ e
+
+/-- …and for **every** read script, failing reads included: either `saferead` made the process exit
+(`die_read`/`die_alarm`, nothing is queued) or the result is again `dblast` of the stream. -/
+theorem C05_chunking_anyscript (s : ISt) (h : IWF s) :
+    sblast s = .died ∨ (sblast s).view = dblast (s.data ++ s.src) := by
+  rcases sblast_spec s h with ⟨e, _⟩ | e
+  · exact Or.inl e
+  · exact Or.inr (view_of_agree _ _ _ e)
+
+/-- When `blast()` returns (under any script), `ssin` is left well-formed with the same buffer, and
+what `commands()` will read next (`s'.data ++ s'.src`) is exactly what follows the terminator. -/
+theorem C05_chunking_ssin (s s' : ISt) (body : Bytes) (h : IWF s) (hacc : sblast s = .accepted body s') :
+    IWF s' ∧ s'.size = s.size ∧ dblast (s.data ++ s.src) = .accepted body (s'.data ++ s'.src) := by
+  rcases sblast_spec s h with ⟨e, _⟩ | e
+  · rw [hacc] at e; cases e
+  · rw [hacc] at e
+    cases hd : dblast (s.data ++ s.src) with
+    | accepted b r =>
+      rw [hd] at e
+      obtain ⟨e1, e2, e3, e4⟩ := e
+      exact ⟨e2, e3, by rw [e1, e4]⟩
+    | stray => rw [hd] at e; cases e
+    | incomplete => rw [hd] at e; cases e
+
+/-- **Independence of the split**, stated directly: two sessions receiving the same byte stream — with
+different buffer sizes, different amounts already buffered, different read sizes — end with the same
+verdict, the same stored message and the same unread remainder. -/
+theorem C05_chunking_indep (s₁ s₂ : ISt) (h₁ : IWF s₁) (h₂ : IWF s₂) (n₁ : 0 ∉ s₁.rs) (n₂ : 0 ∉ s₂.rs)
+    (hs : s₁.data ++ s₁.src = s₂.data ++ s₂.src) : (sblast s₁).view = (sblast s₂).view := by
+  rw [C05_chunking s₁ h₁ n₁, C05_chunking s₂ h₂ n₂, hs]
+
+/-- The round trip with any conforming sender, over chunked input: whatever the segmentation, a message
+of complete lines encoded as RFC 5321 prescribes is stored exactly, and the bytes after it stay in `ssin`. -/
+theorem C05_chunking_roundtrip (s : ISt) (m rest : Bytes) (h : IWF s) (hne : 0 ∉ s.rs) (hm : completeLines m)
+    (hs : s.data ++ s.src = rfcEncode m ++ rest) : (sblast s).view = .accepted m rest := by
+  rw [C05_chunking s h hne, hs, C05_roundtrip m rest hm]
+
+/-- Non-vacuity: a 4-byte buffer (so the refill and the shift happen several times), one byte already
+buffered, reads of 1, 3, 2, 1, then full: "x CR LF . CR Y CR LF . CR LF Q" is decoded as by `dblast`. -/
+example : (sblast { size := 4, n := 3, p := 1, data := [120], src := [13, 10, 46, 13, 89, 13, 10, 46, 13, 10, 81],
+                    rs := [1, 3, 2, 1] }).view = .accepted [120, 10, 13, 89, 10] [81] := by decide
+example : IWF { size := 4, n := 3, p := 1, data := [120], src := [13, 10, 46], rs := [1, 3, 2, 1] } ∧
+    (0 : Nat) ∉ [1, 3, 2, 1] := by decide
+/-- a failing read: the process exits -/
+example : sblast (istart 4 [120, 13, 10, 46, 13, 10] [2, 0]) = .died := by decide
+
+end chunking
 
 end Nq.Props.C05
